@@ -845,7 +845,8 @@ class TrueTypeFont:
                         for c in range(sc, ec + 1):
                             char2gid[c] = (c + idd) & 0xFFFF
             else:
-                assert False, str(("Unhandled", fmttype))
+                # a subtable format this reader does not know: use the others
+                continue
         if not char2gid:
             raise TrueTypeFont.CMapNotFound
         # create unicode map
